@@ -222,7 +222,8 @@ def old_objects_unchanged_except_dict(ctx, *ds):
         if name.startswith('dh.') or name.startswith('dv.') or name == 'dk':
             guard = z3.And(guard, *[r != d.t for d in ds])
         if name.startswith('len.') or name.startswith('el.'):
-            guard = z3.And(guard, *[r != kl.t for kl in kls])
+            # only lists of the key lists' own element sort can be a key list
+            guard = z3.And(guard, *[r != kl.t for kl in kls if name.split('.', 1)[1] == sortkey(kl.ty.args[0])])
         conj.append(forall([r], z3.Implies(guard, z3.Select(now, r) == z3.Select(then, r)), patterns=[z3.Select(now, r)]))
     return mk_bool(z3.And(*conj) if conj else z3.BoolVal(True))
 
